@@ -85,7 +85,7 @@ func cfgFor(tier string) tierCfg {
 			HdrMasks: allMasks(), Budget: 17 * time.Minute,
 			G2: g2For(tier), G2Bases: g2Bases(tier), G2Long: true}
 	}
-	return tierCfg{Depth: 3, CoreDepth: 4, Core: coreShapes, MaxBits: 10, Masks: []int{0x01, 0x80, 0xFF}, HdrMasks: []int{0x01, 0x80, 0xFF, 0}, Budget: 80 * time.Second,
+	return tierCfg{Depth: 3, CoreDepth: 4, Core: coreShapes, MaxBits: 10, Masks: []int{0x01, 0x80, 0xFF}, HdrMasks: []int{0x01, 0x80, 0xFF, 0}, Budget: 95 * time.Second,
 		G2: g2For(tier), G2Bases: g2Bases(tier)}
 }
 
@@ -281,7 +281,7 @@ func run(prop string) int {
 	for _, b := range cfg.G2Bases {
 		// one task per operation in flight, like the long histories
 		for op := -1; op <= len(b); op++ {
-			tb := mk(task{Kind: "crash", Seg: g2BaseSeg, Ops: b, All: true, FromOp: op, ToOp: op + 1, MaxBits: g2BaseMaxBits, G2: cfg.G2})
+			tb := mk(task{Kind: "crash", Seg: g2BaseSeg, Ops: b, All: true, FromOp: op, ToOp: op + 1, MaxBits: g2BaseMaxBits(tier), G2: cfg.G2})
 			taskDepth[string(tb)] = -2
 			tasks = append(tasks, tb)
 		}
@@ -370,7 +370,7 @@ func run(prop string) int {
 	}
 	var caps []string
 	if a.res.Capped > 0 {
-		caps = append(caps, fmt.Sprintf("%d crash points had more than %d undetermined sectors (%d for the second-generation base histories; max %d): all subsets of the last %d (%d) x {all,none} of the earlier ones + the interval families (one contiguous run of lost sectors / one contiguous run of persisted sectors, every position and length)", a.res.Capped, cfg.MaxBits, g2BaseMaxBits, a.maxSectors, cfg.MaxBits, g2BaseMaxBits))
+		caps = append(caps, fmt.Sprintf("%d crash points had more than %d undetermined sectors (%d for the second-generation base histories; max %d): all subsets of the last %d (%d) x {all,none} of the earlier ones + the interval families (one contiguous run of lost sectors / one contiguous run of persisted sectors, every position and length)", a.res.Capped, cfg.MaxBits, g2BaseMaxBits(tier), a.maxSectors, cfg.MaxBits, g2BaseMaxBits(tier)))
 	}
 	if a.skipped > 0 {
 		caps = append(caps, fmt.Sprintf("internal deadline %v: %d tasks not run", cfg.Budget, a.skipped))
@@ -467,7 +467,7 @@ func run(prop string) int {
 		"gen2_crash_images_torn":                 a.g2.Torn,
 		"gen2_crash_images_fully_synced":         a.g2.Strict,
 		"gen2_sector_subset_bits":                cfg.G2.Bits,
-		"gen2_base_sector_subset_bits":           g2BaseMaxBits,
+		"gen2_base_sector_subset_bits":           g2BaseMaxBits(tier),
 		"gen2_max_undetermined_sectors":          a.g2.MaxSectors,
 		"gen2_records_over_4096B_written":        a.g2.BigRecs,
 		"gen2_ops_skipped_inapplicable":          a.g2.SkippedOps,
